@@ -8,6 +8,7 @@ import GunYu.Model.Rdb.Value
 import GunYu.Model.Rdb.Replay
 import GunYu.Proofs.Rdb.Crc64
 import GunYu.Proofs.Rdb.Read
+import GunYu.Proofs.Rdb.Chunk
 
 namespace GunYu.Props.C03
 open GunYu GunYu.Rdb GunYu.RedisSem
@@ -149,6 +150,151 @@ theorem raw_is_encode (cfg : DCfg) (key : SE) (o : ObjE) (rest : Bytes)
     ∃ p ls, readBuffer cfg {} o.rtype (key.enc ++ (o.ser ++ rest)) = some (p, ls, rest) ∧
       p.buf = o.ser ∧ p.key = key.val ∧ p.dump = createValueDump o.rtype o.ser := by
   refine ⟨pobjOf key.val o, {}, readBuffer_plain cfg key o rest hkey hwf hk hh, rfl, rfl, rfl⟩
+
+/-! ## Values split into several chunks
+
+Only the hash table (`RdbTypeHash`) is ever split (`maxBinEntryBuffer`). -/
+
+/-- the expansion of one hash-table chunk -/
+theorem execCmd_hash_chunk (x : XCfg) (p : PObj) (hr : p.rtype = 4) :
+    execCmd x p = (hashPairs p).map (fun ps => ps.map (fun q => cmdB b!"HSET" [p.key, q.1, q.2])) := by
+  unfold execCmd
+  rw [hr]
+  have : otypeOf 4 = some .hash := by decide
+  simp [this]
+
+/-- `chunked_roundtrip` — for ANY chunking threshold: repeated `Next` over a
+    hash-table key item returns chunks which (1) all carry the key, the DB, the
+    absolute expiry, idle time and freq of the value (D8 repaired), (2) are a
+    first chunk exactly for the first one (so the key-exists probe / DEL happens
+    once), (3) each expand without error, and whose expansions, replayed in
+    order into an empty key, rebuild exactly the source hash; afterwards the
+    loader is ready for the next item and the input is positioned behind the
+    value. Chunks of one key reach one worker in this order (`fanOut_same_key`). -/
+theorem chunked_roundtrip (cfg : DCfg) (x : XCfg) (ls : LState) (k : KeyE) (f : LenForm)
+    (items : List (SE × SE)) (rest : Bytes)
+    (hobj : k.obj = .hashTable f items) (hls : ls.total = 0 ∧ ls.read = 0) (hwf : k.wf)
+    (hne : items ≠ []) (hd : ((pairVals items).map (·.1)).Nodup) :
+    ∃ es ls', nextValue cfg (items.length + 1) ls (k.enc ++ rest) = some (es, ls', rest) ∧
+      ls'.total - ls'.read = 0 ∧ ls'.db = ls.db ∧
+      (∀ e ∈ es, ChunkOf ls k e) ∧
+      (∃ e0 tl, es = e0 :: tl ∧ e0.obj.firstBin = true ∧ ∀ e ∈ tl, e.obj.firstBin = false) ∧
+      (∀ e ∈ es, (execCmd x e.obj).isSome) ∧
+      applyCmds [] (es.flatMap (fun e => (execCmd x e.obj).getD [])) =
+        some [(k.key.val, .hash (pairVals items), 0)] := by
+  obtain ⟨es, ls', h1, h2, h3, h4, h5, h6, h7⟩ := nextValue_hash cfg ls k f items rest hobj hls hwf hne
+  refine ⟨es, ls', h1, h2, h3, h4, h5, ?_, ?_⟩
+  · intro e he
+    rw [execCmd_hash_chunk x e.obj (h4 e he).2.2.2.2.2.2.2]
+    have := h6 e he
+    cases hp : hashPairs e.obj with
+    | none => simp [hp] at this
+    | some ps => simp
+  · have hcmds : es.flatMap (fun e => (execCmd x e.obj).getD []) =
+        (es.flatMap (fun e => (hashPairs e.obj).getD [])).map (fun q => cmdB b!"HSET" [k.key.val, q.1, q.2]) := by
+      rw [List.map_flatMap]
+      apply flatMap_congr_mem
+      intro e he
+      rw [execCmd_hash_chunk x e.obj (h4 e he).2.2.2.2.2.2.2, (h4 e he).2.2.2.2.2.2.1]
+      cases hp : hashPairs e.obj with
+      | none => simp
+      | some ps => simp
+    rw [hcmds, h7]
+    have hne' : pairVals items ≠ [] := by
+      intro h0
+      apply hne
+      unfold pairVals at h0
+      exact List.map_eq_nil_iff.mp h0
+    exact hset_all k.key.val (pairVals items) hne' hd
+
+/-- when the whole table fits under the threshold there is a single chunk whose
+    buffer is the serialization: the teed bytes are the encoding -/
+theorem hash_unsplit_raw_is_encode (cfg : DCfg) (key : SE) (f : LenForm) (items : List (SE × SE)) (rest : Bytes)
+    (hkey : key.wf) (hwf : (ObjE.hashTable f items).wf)
+    (hthr : (ObjE.hashTable f items).ser.length ≤ cfg.thr) :
+    ∃ p ls, readBuffer cfg {} 4 (key.enc ++ ((ObjE.hashTable f items).ser ++ rest)) = some (p, ls, rest) ∧
+      p.buf = (ObjE.hashTable f items).ser ∧ p.key = key.val ∧ p.isSplited = false := by
+  obtain ⟨hf, h32, hitems⟩ := hwf
+  have hser : (ObjE.hashTable f items).ser = encLen f items.length ++ encPairs items := rfl
+  rw [hser] at hthr ⊢
+  have hloop := hashChunkLoop_nobreak cfg.thr (encLen f items.length ++ (encPairs items ++ rest)).length
+    items rest 0 (encLen f items.length).length hitems (by simp) (by simpa using hthr)
+  have hrb := readBuffer_hash_first' cfg {} key f items rest items.length ⟨rfl, rfl⟩ hkey hf h32
+    (by rw [hloop]; simp [encPairs])
+  simp only [List.append_assoc]
+  rw [hrb]
+  refine ⟨{ rtype := 4, key := key.val, buf := encLen f items.length ++ encPairs (items.take items.length),
+            total := items.length, read := items.length, history := 0 }, {}, ?_, ?_, rfl, ?_⟩
+  · simp [encPairs]
+  · simp
+  · simp [PObj.isSplited]
+
+/-- the keyed fan-out sends all entries of one key — in particular all chunks of
+    one value — to the same worker, whatever was distributed in between; a
+    worker consumes its pipe in FIFO order (Go channel semantics, trusted), so
+    the chunks of a key are applied in snapshot order -/
+theorem fanOut_same_key (n : Nat) (e1 e2 : Entry) (i1 i2 : Nat) (h : e1.key = e2.key) (hk : e1.key ≠ []) :
+    workerOf n e1 i1 = workerOf n e2 i2 := by
+  have h1 : e1.key.length > 0 := by
+    cases hkk : e1.key with
+    | nil => exact absurd hkk hk
+    | cons a t => simp
+  have h2 : e2.key.length > 0 := by rw [← h]; exact h1
+  simp [workerOf, h2, h]
+
+/-! ## The two replay paths -/
+
+/-- RESTORE path: an unsplit value whose payload fits `MaxProtoBulkLen` is sent
+    as ONE request `restore key ttl payload [IDLETIME n] [FREQ n]` (and once
+    more with REPLACE if the key exists) whose payload is byte for byte the type
+    byte, the value's serialization, RDB version 6 and the CRC-64/Jones of all
+    that, and whose TTL realises the absolute expiry. -/
+theorem restore_path (cfg : RCfg) (db : Int) (ex : Exists) (e : Entry) (k : Bytes) (o : ObjE)
+    (hobj : e.obj = pobjOf k o) (hkey : e.key = k) (hk : o.kind ≠ .other)
+    (hon : cfg.enableRestore = true) (hsz : 1 + o.ser.length + 2 + 8 ≤ cfg.maxBulk) :
+    let payload := [o.rtype] ++ o.ser ++ [6, 0] ++ le64 (crc64Spec ([o.rtype] ++ o.ser ++ [6, 0])).toNat
+    let params := [k, natToDec (ttlOf cfg.now e.expireAt), payload] ++
+      (if cfg.x.tgtMajor ≥ 5 then
+        (if e.idle ≠ 0 then [b!"IDLETIME", natToDec e.idle] else []) ++
+        (if e.freq ≠ 0 then [b!"FREQ", natToDec e.freq] else []) else [])
+    replayEntry cfg db ex e =
+      if ex.has db k then ([cmdB b!"restore" params, cmdB b!"restore" (params ++ [b!"REPLACE"])], ex, true)
+      else ([cmdB b!"restore" params], ex.add db k, true) := by
+  have hot := otypeOf_rtype o hk
+  have hnf : otOf o ≠ .function ∧ otOf o ≠ .aux ∧ otOf o ≠ .module := by
+    unfold otOf; cases hkk : o.kind <;> simp_all
+  have hsplit : (pobjOf k o).isSplited = false := by
+    cases o <;> simp [pobjOf, PObj.isSplited]
+  have hsize : ¬ ((pobjOf k o).valueDumpSize > cfg.maxBulk) := by
+    simp only [PObj.valueDumpSize, pobjOf]; omega
+  have hdump : (pobjOf k o).dump = [o.rtype] ++ o.ser ++ [6, 0] ++
+      le64 (crc64Spec ([o.rtype] ++ o.ser ++ [6, 0])).toNat := by
+    simp only [PObj.dump, pobjOf]
+    exact dump_payload o.rtype o.ser
+  simp only [replayEntry, hobj, hkey]
+  have hrt : (pobjOf k o).rtype = o.rtype := rfl
+  simp only [hrt, hot, hnf.1, hnf.2.1, or_self, if_false, hon, hsplit, hsize, decide_false, Bool.or_self,
+    Bool.not_false, Bool.and_self, Bool.not_true, Bool.false_eq_true, hdump]
+
+/-- expansion path onto a key that does not exist on the target: the probe,
+    the expansion (which rebuilds the value by `expand_roundtrip`), and — iff the
+    key has an expiry — `pexpire key ttl`. -/
+theorem expand_path (cfg : RCfg) (db : Int) (ex : Exists) (e : Entry) (k : Bytes) (o : ObjE)
+    (hobj : e.obj = pobjOf k o) (hkey : e.key = k) (hwf : o.wf) (hk : o.kind ≠ .other)
+    (hoff : cfg.enableRestore = false) (hfresh : ex.has db k = false) :
+    (replayEntry cfg db ex e).1 =
+      [cmdB b!"exists" [k]] ++ o.cmds k ++
+        (if e.expireAt ≠ 0 then [cmdB b!"pexpire" [k, natToDec (ttlOf cfg.now e.expireAt)]] else []) ∧
+    (replayEntry cfg db ex e).2.2 = true := by
+  have hot := otypeOf_rtype o hk
+  have hnf : otOf o ≠ .function ∧ otOf o ≠ .aux ∧ otOf o ≠ .module := by
+    unfold otOf; cases hkk : o.kind <;> simp_all
+  have hfb : (pobjOf k o).firstBin = true := by simp [pobjOf, PObj.firstBin]
+  have hrt : (pobjOf k o).rtype = o.rtype := rfl
+  have hexec := execCmd_pobjOf cfg.x k o hwf hk
+  simp only [replayEntry, hobj, hkey, hrt, hot, hnf.1, hnf.2.1, hnf.2.2, or_self, if_false, hoff, Bool.false_and,
+    Bool.not_false, if_true, hfb, hfresh, Bool.false_eq_true, hexec]
+  constructor <;> simp
 
 /-! ## TTL and database -/
 
